@@ -175,21 +175,74 @@ class World:
         return False
 
     def havoc_heap_for_loop(self, ex, body):
-        """Default: a loop body containing calls may write any modelled field
-        that some contract lists in `modifies`; havoc exactly those."""
-        fields = set()
-        for c in self.contracts.values():
-            if c.modifies == "all":
-                fields |= set(self.fields)
-            else:
-                fields |= set(c.modifies or ())
-        for n in (x for s in body for x in ast.walk(s)):
-            if isinstance(n, (ast.Assign, ast.AugAssign)):
-                for t in (n.targets if isinstance(n, ast.Assign) else [n.target]):
-                    if isinstance(t, ast.Attribute):
-                        fields |= {k for k in self.fields if k[1] == t.attr}
+        """Havoc exactly the modelled fields the loop body may write: attribute
+        assignments, in-place mutation of containers read from attributes, and the
+        `modifies` of the contracts of the functions it calls (callees without a
+        contract are analysed transitively from their source)."""
+        module = ex.frames[-1].get("module") if ex.frames else None
+        fields = self.heap_effects(body, module or (ex.frames and S.load_module(ex.frames[-1]["fid"].split(":")[0])), set(), 0)
+        if fields == "all":
+            fields = set(self.fields)
         for (sort, field) in sorted(fields):
             ex.havoc_field(sort, field)
+        if fields:
+            ex.ghost["heap_version"] = ex.fresh_const("hv", z3.IntSort())
+
+    def heap_effects(self, body, module, seen, depth):
+        out = set()
+        by_name = lambda f: {k for k in self.fields if k[1] == f}  # noqa: E731
+        for n in (x for s in body for x in ast.walk(s)):
+            if isinstance(n, (ast.Assign, ast.AugAssign, ast.AnnAssign)):
+                tg = n.targets if isinstance(n, ast.Assign) else [n.target]
+                for t in tg:
+                    if isinstance(t, ast.Attribute):
+                        out |= by_name(t.attr)
+                    if isinstance(t, ast.Subscript) and isinstance(t.value, ast.Attribute):
+                        out |= by_name(t.value.attr)
+            if not isinstance(n, ast.Call):
+                continue
+            f = n.func
+            if isinstance(f, ast.Name):
+                if f.id in ("setattr", "delattr"):
+                    # literal attribute name: that field; symbolic names are handled by the object-heap hooks (ghost state)
+                    if len(n.args) >= 2 and isinstance(n.args[1], ast.Constant) and isinstance(n.args[1].value, str):
+                        out |= by_name(n.args[1].value)
+                    continue
+                c = None
+                tgt_mod, tgt_name = module, f.id
+                if module is not None and f.id in module.imports:
+                    mod2, rest = S.resolve_dotted(module.imports[f.id])
+                    if mod2 is not None and len(rest) == 1:
+                        tgt_mod, tgt_name = S.load_module(mod2), rest[0]
+                    else:
+                        tgt_mod = None
+                if tgt_mod is not None:
+                    c = self.contracts.get(f"{tgt_mod.name}:{tgt_name}")
+                if c is not None:
+                    if c.modifies == "all":
+                        return "all"
+                    out |= set(c.modifies or ())
+                elif tgt_mod is not None and isinstance(tgt_mod.toplevel.get(tgt_name), ast.FunctionDef) and depth < 6:
+                    key = (tgt_mod.name, tgt_name)
+                    if key not in seen:
+                        seen.add(key)
+                        r = self.heap_effects(tgt_mod.toplevel[tgt_name].body, tgt_mod, seen, depth + 1)
+                        if r == "all":
+                            return "all"
+                        out |= r
+            elif isinstance(f, ast.Attribute):
+                m = f.attr
+                if m in S.MUTATING_METHODS and isinstance(f.value, ast.Attribute):
+                    out |= by_name(f.value.attr)
+                for fid, c in self.contracts.items():
+                    if c.qual.endswith("." + m) or c.qual == m:
+                        if c.modifies == "all":
+                            return "all"
+                        out |= set(c.modifies or ())
+                extra = getattr(self, "method_effects", {}).get(m)
+                if extra:
+                    out |= set(extra)
+        return out
 
     def exception_class(self, module, name):
         return self.exc_classes.get(name, "AnyException")
@@ -540,6 +593,7 @@ class Exec(PathCore, ExprMixin, StmtMixin):
         self.active_exc: list = []
         self.decl_types: dict = {}
         self.cur_line = 0
+        self.pure_sides = []
 
     def begin_path(self, prefix):
         PathCore.begin_path(self, prefix)
